@@ -108,6 +108,30 @@ claim('C16',
       'explicit-state exploration of solver-call sequences + full configuration product against the default run',
       'DESIGN.md#c16')
 
+claim('C18',
+      'All 23 linear block classes (gain, integrator, lag family incl. freeze / anti-windup / rate variants, washout, '
+      'washout-or-lag, 2nd-order lag and lead-lag, lead-lag (+limit), PI / PID family incl. anti-windup, tracking and freeze '
+      'variants) are instantiated with named parameters and define()d; on the full tensor grid of 4 (5) generic values per '
+      'parameter in the regular region and in every documented bypass region, the exported equation strings are linearised '
+      '(affinity checked), internal variables eliminated with T on the left, and G_impl(s) compared with the documented '
+      'G(s) at 7 complex frequencies; declared initial values must balance every equation for constant input.',
+      'vmc/refs/blocks_doc.py (hand transcription of the documented transfer functions) is trusted; grid agreement decides '
+      'polynomial identity only up to the stated degree bound; limits are placed far outside the operating range.',
+      'exhaustive tensor-grid enumeration per block and region against the documented transfer function',
+      'DESIGN.md#c18')
+
+claim('C01',
+      'All connected graphs on 2..3 (4) buses; default network plus all single deviations (7 branch features incl. taps, '
+      'phase shift, asymmetric end shunts, charging, own MVA/kV base, offline parallel line; 5 bus device sets) plus pairs; '
+      'cross dimensions one at a time (reversed order, string indices, re-based data, json round trip, dishonest / '
+      'Newton-Krylov, umfpack / spsolve, linsolve, ipadd=0). Each execution: real PFlow.run from a flat start; complex power '
+      'balance recomputed from the INPUT data by an independent pi-model with textbook base conversion, set-points, and '
+      'agreement with an independent Newton solution and with the default variant.',
+      'Trusts vmc/refs/acflow.py; networks up to 4 buses; PQ voltage limits set wide; Vn2 != bus kV excluded; xlsx / '
+      'MATPOWER / PSS/E input channels are covered under C13.',
+      'bounded exhaustive enumeration of network shapes with deviation bounding against an independent AC reference',
+      'DESIGN.md#c01')
+
 _PENDING = 'check not built yet in this round; planned per DESIGN.md (bounded exhaustive exploration applies)'
 for _p in ALL:
     if _p not in CLAIMED:
